@@ -33,8 +33,19 @@ func TestVerifValid(t *testing.T) {
 			return gv.ValidateNginxSize(s) == nil
 		case 6:
 			return gv.ValidateEndpoint(s) == nil
-		default:
+		case 7:
 			return validateEscapedString(s, nil) == nil
+		// the exported validators the graph calls (what guards the fields)
+		case 8:
+			return HTTPHeaderValidator{}.ValidateFilterHeaderValue(s) == nil
+		case 9:
+			return HTTPHeaderValidator{}.ValidateFilterHeaderName(s) == nil
+		case 10:
+			return HTTPRedirectValidator{}.ValidateHostname(s) == nil
+		case 11:
+			return HTTPPathValidator{}.ValidatePath(s) == nil
+		default:
+			return gv.ValidateEscapedStringNoVarExpansion(s) == nil
 		}
 	}
 	emit := func(kind int, s string) {
@@ -57,7 +68,7 @@ func TestVerifValid(t *testing.T) {
 		}
 	}
 	gen("", 3)
-	for _, kind := range []int{0, 1, 7} {
+	for _, kind := range []int{0, 8} {
 		for _, w := range words {
 			emit(kind, w)
 		}
@@ -74,10 +85,12 @@ func TestVerifValid(t *testing.T) {
 		6: {"my-endpoint", "my.endpoint:5678", "http://my-endpoint", "htt://x", "a:1", "a.b.c:65535", "x:123456"},
 		7: {"", "a$b", "x\\$", "a\\\"", "$"},
 	}
-	n := out.Count(4000, 60000)
+	cores[8], cores[10], cores[12] = append(cores[1], "USD\\$amount", "\\${total}"), cores[1], cores[1]
+	cores[9], cores[11] = cores[2], cores[0]
+	n := out.Count(3000, 60000)
 	for i := 0; i < n; i++ {
 		r := rng.Fork()
-		kind := r.Intn(8)
+		kind := r.Intn(13)
 		s := cores[kind][r.Intn(len(cores[kind]))]
 		switch r.Intn(5) {
 		case 0: // a random word
